@@ -72,7 +72,8 @@ def poly_jac(cfg, x: list[list[Fraction]]) -> dict[tuple[str, str], list[list[Fr
     for name, size in cfg["outputs"]:
         rows = cfg["A"][name]
         k = 0
-        for (iname, isize, _d), _v in zip(cfg["inputs"], x):
+        for (iname, _isize, _d), v in zip(cfg["inputs"], x):
+            isize = len(v)
             jac[(name, iname)] = [
                 [Fraction(rows[i][k + j]) + 2 * Fraction(cfg["q"][name][i]) * xx[k + j] for j in range(isize)]
                 for i in range(size)
@@ -150,6 +151,13 @@ def gen_cfg(rng: common.Rng, kind: str | None = None) -> dict[str, Any]:
         A[o0[0]] = [[1 if j == i else 0 for j in range(n_x)] for i in range(i0[1])]
         b[o0[0]] = [0] * i0[1]
         q[o0[0]] = [0] * i0[1]
+    sym = False
+    if rng.chance(0.2) and not any(i[0] == "s" for i in inputs):
+        # a "symmetric" body (constant rows of A): it accepts input arrays shorter than declared, so the
+        # same input name is called with arrays of different sizes
+        sym = True
+        for name, size in outputs:
+            A[name] = [[rng.pick([1, 2, -1])] * n_x for _ in range(size)]
     in_names = [i[0] for i in inputs]
     out_names = [o[0] for o in outputs]
     style = rng.random()
@@ -174,6 +182,7 @@ def gen_cfg(rng: common.Rng, kind: str | None = None) -> dict[str, Any]:
         "q": q,
         "sparse": sparse,
         "hash": "coarse" if kind in FULL and rng.chance(0.3) else "real",
+        "sym": sym,
     }
 
 
@@ -203,11 +212,18 @@ def gen_ops(rng: common.Rng, cfg: dict[str, Any], n_ops: int, in_scope: bool = T
                 v[k] += m * step
                 pool[size].append(v)
 
+    sym = bool(cfg.get("sym"))
+
     def value(size: int) -> list[Fraction]:
+        if sym and size > 1 and rng.chance(0.4):
+            size = rng.randint(1, size - 1)  # a shorter array for the same input name
         v = list(rng.pick(pool[size]))
         if rng.chance(0.1):
             v[rng.randrange(size)] += rng.pick([Fraction(1, 1024), Fraction(-1, 8), 1])
         return v
+
+    def fits(have: int, want: int) -> bool:
+        return have == want or (sym and have <= want)
 
     ops: list[list[Any]] = []
     vals: dict[int, list[Fraction] | None] = {}  # id -> known value (None: a kept output array)
@@ -256,8 +272,8 @@ def gen_ops(rng: common.Rng, cfg: dict[str, Any], n_ops: int, in_scope: bool = T
                 for name, size in sizes.items():
                     if has_default[name] and rng.chance(0.3):
                         continue
-                    fresh_kept = [i for i in kept if size_of[i] == size and i not in passed]
-                    cands = [i for i in vals if size_of[i] == size]
+                    fresh_kept = [i for i in kept if fits(size_of[i], size) and i not in passed]
+                    cands = [i for i in vals if fits(size_of[i], size)]
                     if fresh_kept and rng.chance(0.6):
                         i = rng.pick(fresh_kept)
                     elif cands and rng.chance(0.55):
@@ -270,20 +286,47 @@ def gen_ops(rng: common.Rng, cfg: dict[str, Any], n_ops: int, in_scope: bool = T
             calls.append((args, call_vals))
             u = rng.random()
             can_linx = last_exec_vals is not None and call_vals is not None and call_vals == last_exec_vals
+            # how the caller passes the data: a fresh dict, one dict object reused and updated in place
+            # across the calls, extra keys that are not inputs
+            how = {"dict": rng.pick(["fresh", "fresh", "shared"]), "junk": rng.chance(0.15)}
+            if rng.chance(0.12):
+                ops.append(["peek", dict(args)])  # a direct look-up `cache[input_data]` before the call
             if u < 0.55:
-                ops.append(["exec", args])
+                ops.append(["exec", args, how])
                 last_was_exec = True
             elif u < 0.78:
-                ops.append(["lin", "all", 1, args])
+                ops.append(["lin", "all", 1, args, how])
                 last_was_exec = False
             elif u < 0.92 or not (can_linx or not in_scope):
-                ops.append(["lin", "sub", 1, args])
+                ops.append(["lin", "sub", 1, args, how])
                 last_was_exec = False
             else:
-                ops.append(["lin", rng.pick(["all", "sub"]), 0, args])
+                ops.append(["lin", rng.pick(["all", "sub"]), 0, args, how])
                 last_was_exec = False
                 call_vals = last_exec_vals  # execute=False does not execute
             last_exec_vals = call_vals
+            if last_was_exec and rng.chance(0.12):
+                # pass the returned data (inputs and outputs) itself back: the self-coupled variables
+                # take their output values, the other inputs are the same arrays
+                args2 = dict(args)
+                ok = True
+                for name in sizes:
+                    if name in out_sizes:
+                        if not fits(out_sizes[name], sizes[name]):
+                            ok = False
+                            break
+                        i = next_id[0]
+                        next_id[0] += 1
+                        ops.append(["keep", i, name])
+                        vals[i] = None
+                        size_of[i] = out_sizes[name]
+                        kept.add(i)
+                        passed.add(i)
+                        args2[name] = i
+                if ok:
+                    ops.append(["exec", args2, {"dict": "chain", "junk": False}])
+                    calls.append((args2, None))
+                    last_exec_vals = None
             continue
         last = last_was_exec
         last_was_exec = False
@@ -296,6 +339,8 @@ def gen_ops(rng: common.Rng, cfg: dict[str, Any], n_ops: int, in_scope: bool = T
                 continue
             i = rng.pick(elig)
             v = value(size_of[i])
+            while len(v) != size_of[i]:
+                v = value(size_of[i])  # an in-place modification keeps the size
             ops.append(["mut", i, [rat(c) for c in v]])
             vals[i] = v
         elif r < 0.90:
@@ -468,13 +513,27 @@ def gen_case(rng: common.Rng) -> tuple[dict[str, Any], list[list[Any]]]:
     return cfg, gen_ops(rng, cfg, rng.randint(1, 20))
 
 
+def op_args(op) -> dict[str, int]:
+    return op[3] if op[0] == "lin" else op[1]
+
+
+def op_how(op) -> dict[str, Any]:
+    k = 4 if op[0] == "lin" else 2
+    return op[k] if len(op) > k else {"dict": "fresh", "junk": False}
+
+
 def well_formed(cfg, ops) -> bool:
-    """Every id is defined before use with the right size, `keep` directly follows an execute (or a keep)."""
+    """Every id is defined before use with a fitting size, `keep` directly follows an execute (or a
+    keep), a call that passes the returned data back directly follows an execute (+ its keeps) and has
+    the same arguments but for the self-coupled variables."""
     sizes = {i[0]: i[1] for i in cfg["inputs"]}
     has_default = {i[0]: i[2] is not None for i in cfg["inputs"]}
     out_sizes = {o[0]: o[1] for o in cfg["outputs"]}
+    sym = bool(cfg.get("sym"))
     size_of: dict[int, int] = {}
     prev_exec = False
+    last_exec_args: dict[str, int] | None = None
+    keeps_since: dict[str, int] = {}
     for op in ops:
         k = op[0]
         if k == "new":
@@ -488,16 +547,34 @@ def well_formed(cfg, ops) -> bool:
             if not prev_exec or op[1] in size_of or op[2] not in out_sizes:
                 return False
             size_of[op[1]] = out_sizes[op[2]]
-        elif k in ("exec", "lin"):
-            args = op[-1]
+            keeps_since[op[2]] = op[1]
+        elif k in ("exec", "lin", "peek"):
+            args = op_args(op)
             for name, size in sizes.items():
                 if name in args:
-                    if size_of.get(args[name]) != size:
+                    have = size_of.get(args[name])
+                    if have is None or not (have == size or (sym and have <= size)):
                         return False
                 elif not has_default[name]:
                     return False
             if set(args) - set(sizes):
                 return False
+            if k != "peek" and op_how(op)["dict"] == "chain":
+                if k != "exec" or not prev_exec or last_exec_args is None:
+                    return False
+                want = dict(last_exec_args)
+                for name in sizes:
+                    if name in out_sizes:
+                        if name not in keeps_since:
+                            return False
+                        want[name] = keeps_since[name]
+                if want != args:
+                    return False
+        if k == "exec":
+            last_exec_args = dict(op_args(op))
+            keeps_since = {}
+        elif k != "keep":
+            last_exec_args = None if k != "peek" else last_exec_args
         prev_exec = k == "exec" or (k == "keep" and prev_exec)
     return True
 
@@ -512,7 +589,7 @@ def in_quantifier(cfg, ops) -> bool:
         if op[0] == "keep":
             kept.add(op[1])
         elif op[0] in ("exec", "lin"):
-            passed.update(op[-1].values())
+            passed.update(op_args(op).values())
         elif op[0] == "mut" and op[1] in kept and op[1] not in passed:
             return False
     return True
@@ -634,13 +711,14 @@ def show_state(cfg, d) -> str:
     in_names = [i[0] for i in cfg["inputs"]]
     out_names = [o[0] for o in cfg["outputs"]]
     if d.cache is None:
-        return f"run={d.n_run} jac={d.n_jac} | len=_ | "
+        return f"run={d.n_run} jac={d.n_jac} | len=_ last=_ | "
     es = []
     # HDF5Cache.get_all_entries() raises (assert in HDF5FileSingleton.__close) on a cache without
     # entries: an API wart outside this property; the harness does not iterate an empty cache.
     for e in d.cache.get_all_entries() if len(d.cache) else ():
         es.append("{" + show_vals(in_names, e.inputs) + " > " + show_vals(out_names, e.outputs) + " > " + show_jac(jac_blocks(e.jacobian)) + "}")
-    return f"run={d.n_run} jac={d.n_jac} | len={len(d.cache)} | " + " ".join(es)
+    last = show_vals(in_names, d.cache.last_entry.inputs)
+    return f"run={d.n_run} jac={d.n_jac} | len={len(d.cache)} last={last} | " + " ".join(es)
 
 
 def cfg_line(cfg) -> str:
@@ -666,6 +744,7 @@ class Run:
         self.steps: list[dict[str, Any]] = []  # rich per-op observations for the oracle
         self.linx_ok = True  # every execute=False call had the asserted precondition
         self.exact = True  # every call stayed on the exact stream (inputs with few significant bits)
+        self.update_check = None  # (entries, entries of a cache updated from it) at the end of the history
         self.hash_patched = True
 
 
@@ -680,6 +759,7 @@ def run_history(cfg, ops, kind: str | None = None) -> Run:
         run.hash_patched = bool(patched)
         d, info = make_disc(cfg, kind)
         heap: dict[int, np.ndarray] = {}
+        shared: dict[str, Any] = {}
         tokens: dict[Any, int] = {}
         last_ret = None
         last_exec_x = None
@@ -701,8 +781,8 @@ def run_history(cfg, ops, kind: str | None = None) -> Run:
                 elif k == "keep":
                     heap[op[1]] = last_ret[op[2]]
                     line = f"keep {op[1]} {op[2]}"
-                elif k in ("exec", "lin"):
-                    args = op[-1]
+                elif k in ("exec", "lin", "peek"):
+                    args = op_args(op)
                     x = [fvals(heap[args[n]]) if n in args else defaults[n] for n in in_names]
                     if cfg["hash"] == "coarse" and kind in FULL and patched:
                         tok = coarse_hash({n: np.array([float(c) for c in v]) for n, v in zip(in_names, x)})
@@ -710,31 +790,52 @@ def run_history(cfg, ops, kind: str | None = None) -> Run:
                         key = tuple((n, tuple(v)) for n, v in zip(in_names, x))
                         tok = tokens.setdefault(key, len(tokens) + 1)
                     argstr = " ".join(f"{n}={args[n]}" for n in in_names if n in args)
-                    data = {n: heap[i] for n, i in args.items()}
                     step["x"] = x
                     if any(max(c.numerator.bit_length(), c.denominator.bit_length()) > 22 for v in x for c in v):
                         # outputs fed back several times through a quadratic body: the float evaluation of
                         # the body is no longer exact; the case leaves the exact stream (and is not judged)
                         run.exact = False
-                    n_run0, n_jac0 = d.n_run, d.n_jac
-                    if k == "exec":
-                        line = f"exec h={tok} {argstr}".rstrip()
-                        r = d.execute(data)
-                        last_ret = r
-                        last_exec_x = x
-                        step["ret"] = {n: fvals(r[n]) for n in out_names}
-                        res = "D " + show_vals(out_names, r)
+                    if k == "peek":
+                        # the Mapping interface of the cache: cache[input_data], with fresh arrays
+                        line = f"peek h={tok} {argstr}".rstrip()
+                        if d.cache is None:
+                            res = "P _ > _"
+                        else:
+                            probe = {n: np.array([float(c) for c in v]) for n, v in zip(in_names, x)}
+                            e = d.cache[probe]
+                            res = "P " + show_vals(out_names, e.outputs) + " > " + show_jac(jac_blocks(e.jacobian))
+                        step["peek"] = res
                     else:
-                        line = f"lin {op[1]} {op[2]} h={tok} {argstr}".rstrip()
-                        if not op[2] and last_exec_x != x:
-                            run.linx_ok = False
-                        j = d.linearize(data, compute_all_jacobians=(op[1] == "all"), execute=bool(op[2]))
-                        if op[2]:
+                        how = op_how(op)
+                        if how["dict"] == "chain":
+                            data = last_ret  # the returned data itself
+                        else:
+                            data = {n: heap[i] for n, i in args.items()}
+                            if how["junk"]:
+                                data["zz_not_an_input"] = np.array([123.0])
+                            if how["dict"] == "shared":
+                                shared.clear()
+                                shared.update(data)
+                                data = shared  # one dict object updated in place across the calls
+                        n_run0, n_jac0 = d.n_run, d.n_jac
+                        if k == "exec":
+                            line = f"exec h={tok} {argstr}".rstrip()
+                            r = d.execute(data)
+                            last_ret = r
                             last_exec_x = x
-                        step["jac"] = jac_blocks(j)
-                        res = "J " + show_jac(step["jac"])
-                    step["ran"] = d.n_run - n_run0
-                    step["linearized"] = d.n_jac - n_jac0
+                            step["ret"] = {n: fvals(r[n]) for n in out_names}
+                            res = "D " + show_vals(out_names, r)
+                        else:
+                            line = f"lin {op[1]} {op[2]} h={tok} {argstr}".rstrip()
+                            if not op[2] and last_exec_x != x:
+                                run.linx_ok = False
+                            j = d.linearize(data, compute_all_jacobians=(op[1] == "all"), execute=bool(op[2]))
+                            if op[2]:
+                                last_exec_x = x
+                            step["jac"] = jac_blocks(j)
+                            res = "J " + show_jac(step["jac"])
+                        step["ran"] = d.n_run - n_run0
+                        step["linearized"] = d.n_jac - n_jac0
                 elif k == "reopen":
                     line = "reopen"
                     if kind == "hdf":
@@ -760,11 +861,22 @@ def run_history(cfg, ops, kind: str | None = None) -> Run:
             step["len"] = None if d.cache is None else len(d.cache)
             run.lines.append(line)
             try:
-                run.answers.append(res + " | " + show_state(cfg, d))
+                run.answers.append(res if k == "peek" and "exc" not in step else res + " | " + show_state(cfg, d))
             except Exception as e:  # noqa: BLE001
                 run.answers.append(res + " | state-raises " + common.exc_class(e))
                 step["exc"] = common.short_tb(e)
             run.steps.append(step)
+        if kind in FULL and len(d.cache):
+            # BaseFullCache.update / __setitem__: a fresh cache filled from this one serves the same entries
+            try:
+                from gemseo.caches.memory_full_cache import MemoryFullCache
+
+                other = MemoryFullCache(is_memory_shared=False)
+                other.update(d.cache)
+                dd = type("D", (), {"cache": other})()
+                run.update_check = (entries_snapshot(cfg, d), entries_snapshot(cfg, dd))
+            except Exception as e:  # noqa: BLE001
+                run.update_check = ("raised", common.short_tb(e))
     return run
 
 
@@ -852,6 +964,9 @@ def oracle(cfg, ops, run: Run, twin: Run | None) -> list[tuple[str, str, int]]:
                 bad.append((f"rerun-{kind}", f"op {pos}: the body ran twice on the same input (runs since the last clear: {keys})", pos))
         if bad:
             break
+    if not bad and run.update_check is not None and run.update_check[0] != run.update_check[1]:
+        bad.append(("update-entries", f"a cache updated from the final cache serves {run.update_check[1]}, the cache itself {run.update_check[0]}",
+                    len(run.steps) - 1))
     return bad
 
 
@@ -1009,6 +1124,11 @@ def account(res: Result, cfg, ops, run: Run, scope: bool) -> None:
         res.count("run-sets-jacobian")
     for op in ops:
         res.count("op=" + op[0] + (f"-{op[1]}-{'exe' if op[2] else 'noexe'}" if op[0] == "lin" else ""))
+        if op[0] in ("exec", "lin"):
+            how = op_how(op)
+            res.count("data=" + how["dict"] + ("+extra-keys" if how["junk"] else ""))
+    if cfg.get("sym"):
+        res.count("variable-size-inputs")
     hits = sum(1 for s in run.steps if s["op"][0] == "exec" and s.get("ran") == 0)
     jhits = sum(1 for s in run.steps if s["op"][0] == "lin" and s.get("linearized") == 0)
     res.count("exec-hit", hits)
@@ -1016,6 +1136,7 @@ def account(res: Result, cfg, ops, run: Run, scope: bool) -> None:
     if any(op[0] == "mut" for op in ops) and hits + jhits > 0:
         res.count("mutation+hit")
     n_calls = sum(1 for op in ops if op[0] in ("exec", "lin"))
+    res.count("peek-answered", sum(1 for st in run.steps if st.get("peek", "P _ > _") != "P _ > _"))
     if n_calls >= 2 and cfg["kind"] != "none":
         res.nontrivial(json.dumps([cfg_line(cfg), run.lines[1:]]))
     res.sample({"cfg": cfg_line(cfg), "ops": run.lines[1:6], "impl": run.answers[1:6]})
@@ -1098,7 +1219,7 @@ def run(ctx) -> Result:
     corpus = load_corpus()
     check_cases(res, corpus, rng)
     res.count("corpus", len(corpus))
-    n = 8000 if ctx.thorough else 900
+    n = 8000 if ctx.thorough else 800
     batch_size = 1000 if ctx.thorough else 150
     done = 0
     import time
